@@ -256,7 +256,7 @@ structure Table where
       caller's pipeline object is never the one the stages see), 1967 `[doc for doc in
       self.find()]` (cache, then the hand-out copy; the cursor is dropped); aggregate.py 1755
       `dict(doc)`, 1581/1591 `copy.deepcopy(doc)` (and the unwound item is taken out of that copy,
-      0383ef2); 539 `$literal`: `copy.deepcopy(value)`; 342-345 an array constant is evaluated item
+      0383ef2); 539 `$literal`: `copy.deepcopy(value)`; 383-386 an array constant is evaluated item
       by item into new lists / documents (fce7e55; it was `copy.deepcopy`, aab0261).
     * 548 `return _copy_field(data['_id'], dict)` — `inserted_id`, `inserted_ids` and (934, 961)
       `upserted_id` are copies of the stored `_id`. -/
